@@ -110,9 +110,13 @@ def run(ctx, chk, tier):
                 chk.violation("R09.2", q, "value[%s]" % pc_text(o), show(got, 200), show(want, 200), ctx.where(q))
         if ok:
             chk.hold("R09.2", "property:" + name, "%s = %s on %d path(s)" % (name, show(spec, 120), len(outs)))
-    # inverse maps
+    inverse_maps(ctx, chk)
+    chk.floor("R09.2", 13 + 24, "13 properties + 24 inverse maps")
+
+
+def inverse_maps(ctx, chk, metrics=METRICS):
     pos, neg = SCORE_REPS["3v2"]
-    for metric in METRICS:
+    for metric in metrics:
         q = SCORES + ".threshold_at_" + metric
         for sc, ec in GAMMAS:
             rate = rate_term(ctx, chk, metric, sc, ec)
@@ -148,4 +152,3 @@ def run(ctx, chk, tier):
                                   "(target - m_min)/(m_max - m_min) = %s" % show(w, 260), ctx.where(q))
             if ok:
                 chk.hold("R09.2", inst, "hard-sample target = (r - %s)/(%s)" % (show(mmin, 80), show(sub(mmax, mmin), 80)))
-    chk.floor("R09.2", 13 + 24, "13 properties + 24 inverse maps")
